@@ -137,6 +137,15 @@ theorem code_cumulative_is_running_sum (L cy : Nat) (hcy : 1 ≤ cy) (capex opex
       cumsum (Code.CalculateTotalRevenue (L : Int) (cy : Int) capex opex rev).1 := by
   rw [code_total_revenue_eq L cy hcy]
 
+/-- the payback statements of `Economics.Calculate` (the `for i in range(1, len(cum))` scan), as they stand in the source, are the model
+`paybackFixed` — for every cumulative series; with `payback_within_turn_year` this puts the reported payback inside the year in which
+the cumulative cash flow turns positive, for the code as written -/
+theorem code_payback_is_model (cum : List Rat) : Code.PaybackFragment cum = paybackFixed cum := code_payback_eq cum
+
+example : Code.PaybackFragment (Code.CalculateTotalRevenue 4 1 10 0 [0, 4, 4, 4, 4]).2 = 3 + 1/2 := by decide +kernel
+/-- a cumulative of exactly zero at a year end counts as "not yet positive": the crossing is found in the next year -/
+example : Code.PaybackFragment [-40, -30, -20, -10, 0, 10, 20] = 5 := by decide +kernel
+
 example : Code.CalculateTotalRevenue 3 2 10 1 [0, 0, 4, 4, 4] = ([-5, -5, 3, 3, 3], [-5, -10, -7, -4, -1]) := by decide +kernel
 example : Code.CalculateRevenue 2 1 [1000000, 2000000] [1/2, 1/4] = ([0, 1/2, 1/2], [0, 1/2, 1]) := by decide +kernel
 
